@@ -580,7 +580,7 @@ func checkMinDistance(c xab) ev.Outcome {
 			}
 		}
 	}
-	if oki && g.bf == 1 {
+	if oki && g.bf == 1 && tinyFinding(g, "") == "" {
 		o.Ratios["interior_err/minUpdateInteriorDistanceMaxError"] = 0
 		if ib := math.Max(interiorMaxErr(df), interiorMaxErr(g.d2f)); ib > 0 && g.interior {
 			o.Ratios["interior_err/minUpdateInteriorDistanceMaxError"] = errAbs / ib
